@@ -317,6 +317,9 @@ func runC07(t *simrt.Tape, o Opts) Outcome {
 	swept := t.Choose(2, "mode.sweep") == 1
 	kind := t.Choose(corKinds, "cor.kind")
 	pos := t.Choose(1<<12, "cor.pos")
+	if !swept && t.Choose(8, "mode.stored-junk") == 1 {
+		return runC07StoreJunk(t, o)
+	}
 	s := simrt.Run(t, cfg, func(s *simrt.Sim) {
 		w = world.New(s, "C07")
 		st.Oracle = map[string]int{}
